@@ -3,7 +3,7 @@
    and Nelder-Mead are instances, see the Examples), every cost / constraints / penalty, every oracle input and every
    sequence of API operations, including SetStrictRanges interleaved with Step. *)
 From Coq Require Import List ZArith Bool.
-From MV Require Import Common.Num Core.Machine Core.Machine_Proofs Core.DE Core.NM.
+From MV Require Import Common.Num Common.Order Core.Machine Core.Machine_Proofs Core.DE Core.DE_Proofs Core.NM Core.NM_Proofs Core.Powell Core.Powell_Proofs Core.Box_Proofs.
 Import ListNotations.
 
 (* every real call of the user's cost lies inside the box that was in force when it was made *)
@@ -25,6 +25,54 @@ Theorem C02_no_call_outside :
     emon_on N (fst (objective N inf nested s x)) = emon_on N s /\ snd (objective N inf nested s x) = e.
 Proof. exact objective_core. Qed.
 Print Assumptions C02_no_call_outside.
+
+(* "when the ranges were in force from the first iteration and the reported best energy is finite, the reported best solution lies
+   inside the box": in every clean run during which the ranges are not changed (they were set before the first Step) every logged call
+   was made under that box (box_constant, for every algorithm), and the reported best of each solver is an evaluated point or has a top
+   (infinite) energy *)
+Theorem C02_box_constant :
+  forall (N : Num) (inf : T N) (C I : Type) (A : algo N C I) (b : option (vec N * vec N)) (ops : list (op N I)) (sc : sys N * C),
+  Forall (clean_op N I (fun _ => True) false true) ops -> BoxConst N b (fst sc) -> BoxConst N b (fst (run N inf C I A sc ops)).
+Proof. exact box_constant. Qed.
+Print Assumptions C02_box_constant.
+
+Theorem C02_de_best_inside :
+  forall (N : Num) (inf : T N), StrictWeak (T N) (ltb N) -> (forall p, is_top N (add N inf p)) -> is_top N inf ->
+  forall (b : option (vec N * vec N)) (de2 : bool) (npop : nat) (ops : list (op N (de_in N))) (sc : sys N * de N),
+  Forall (clean_op N _ (de_ok_in N npop) false true) ops -> P_de N inf npop (fst sc) (snd sc) ->
+  Inv_box N (fst sc) -> BoxConst N b (fst sc) ->
+  let r := run N inf _ _ (de_algo N inf de2) sc ops in
+  is_top N (snd (de_best N inf (snd r))) \/ outside N b (fst (de_best N inf (snd r))) = false.
+Proof. exact de_best_inside. Qed.
+Print Assumptions C02_de_best_inside.
+
+Theorem C02_nm_best_inside :
+  forall (N : Num) (inf : T N), (forall p, is_top N (add N inf p)) -> is_top N inf ->
+  forall (b : option (vec N * vec N)) (cons0 : vec N -> vec N), (forall x, cons0 (cons0 x) = cons0 x) ->
+  forall (ops : list (op N (nm_in N))) (sc : sys N * nm N),
+  Forall (clean_op N _ (nm_ok_in N) true true) ops -> P_nm N inf cons0 (fst sc) (snd sc) ->
+  Inv_box N (fst sc) -> BoxConst N b (fst sc) ->
+  let r := run N inf _ _ (nm_algo N inf) sc ops in
+  stepmon N (fst r) <> [] -> sim N (snd r) <> [] ->
+  is_top N (snd (nm_best N inf (snd r))) \/ outside N b (fst (nm_best N inf (snd r))) = false.
+Proof. intros N inf Ht Hi b. exact (nm_best_inside N inf Ht Hi b). Qed.
+Print Assumptions C02_nm_best_inside.
+
+Theorem C02_powell_best_inside :
+  forall (N : Num) (inf : T N), (forall p, is_top N (add N inf p)) ->
+  forall (b : option (vec N * vec N)) (cons0 : vec N -> vec N), (forall x, cons0 (cons0 x) = cons0 x) ->
+  forall (ops : list (op N (pw_in N))) (sc : sys N * pw N),
+  Forall (clean_op N _ (pw_ok_in N) true true) ops -> P_pw N inf cons0 (fst sc) (snd sc) ->
+  Inv_box N (fst sc) -> BoxConst N b (fst sc) ->
+  let r := run N inf _ _ (pw_algo N inf) sc ops in
+  stepmon N (fst r) <> [] ->
+  is_top N (snd (pw_best N inf (snd r))) \/ outside N b (fst (pw_best N inf (snd r))) = false.
+Proof. intros N inf Ht b. exact (pw_best_inside N inf Ht b). Qed.
+Print Assumptions C02_powell_best_inside.
+
+Example C02_boxconst_nonvacuous : forall (N : Num) (inf : T N) t bx,
+  BoxConst N (Some bx) (set_box N (init_sys N inf t) (Some bx)) /\ Inv_box N (set_box N (init_sys N inf t) (Some bx)).
+Proof. intros. split; [split; [reflexivity|constructor]|constructor]. Qed.
 
 (* the theorem applies to the three modelled solvers from their initial state *)
 Example C02_instances : forall (N : Num) (inf : T N) t npop ndim ops1 ops2 ops3,
